@@ -126,6 +126,8 @@ struct Counted<S> {
 impl<S: Signal> Signal for Counted<S> {
     type Frame = S::Frame;
     fn next(&mut self) -> S::Frame {
+        // (fuse: a consumer that never ends must not hang the run -- the panic is caught and logged)
+        assert!(self.calls.get() < 1_000_000, "fuse: source pulled a million times");
         self.calls.set(self.calls.get() + 1);
         self.inner.next()
     }
@@ -668,6 +670,155 @@ where
     }
 }
 
+/// The `drive` event: the consumer's iterator (take / until_exhausted / interleaved samples) is driven
+/// by a PROGRAM of `Iterator` methods -- the required `next` and the provided ones a type may override
+/// (`nth`, `size_hint`, `count`, `last`, `fold`, `for_each`, `find`, `position`, `any`, `all`, `collect`),
+/// `ExactSizeIterator::len`, and the std adaptors that reach the iterator through `nth` (`skip`,
+/// `step_by`).  Each call is made on the concrete iterator type (method syntax, so an override is what
+/// runs).  Logged per call: its raw result and the pull counters after it.  Predicates are counting
+/// closures (true at their k-th call: `find`, `position`, `any`; false at it: `all`), so no value is
+/// ever inspected here.
+enum Raw<T> {
+    Opt(Option<T>),
+    OptN(Option<usize>),
+    B(bool),
+    N(usize),
+    Hint(usize, Option<usize>),
+    Items(Vec<T>, [bool; 2]),
+}
+const SMALL: usize = 1 << 30;
+fn run_prog<T, I: Iterator<Item = T>>(
+    it: I,
+    ops: &[Value],
+    cap: usize,
+    len_of: impl Fn(&I) -> Option<usize>,
+    snap: &dyn Fn() -> Value,
+    enc: impl Fn(T) -> Value + Copy,
+) -> (Vec<Value>, Vec<Value>, [i64; 3]) {
+    let mut it = Some(it);
+    let mut res = Vec::new();
+    let mut steps = Vec::new();
+    let mut h = [0i64; 3];
+    for op in ops {
+        let name = op["op"].as_str().expect("op");
+        let k = op["k"].as_u64().unwrap_or(0) as usize;
+        // (result storage lives outside the measured window; the calls only move it)
+        let mut store: Vec<T> = Vec::with_capacity(cap + 4);
+        let items = &mut store;
+        let fuse = cap;
+        let terminal = matches!(name, "count" | "last" | "fold" | "for_each" | "vec" | "skip" | "step_by");
+        let (r, h1, _) = if terminal {
+            let i = it.take().expect("iterator already consumed");
+            measured(|| {
+                catch(move || match name {
+                    "count" => Raw::N(i.count()),
+                    "last" => Raw::Opt(i.last()),
+                    "fold" => Raw::Items(
+                        i.fold(std::mem::take(items), |mut v, x| {
+                            assert!(v.len() < fuse, "fuse");
+                            v.push(x);
+                            v
+                        }),
+                        [false, false],
+                    ),
+                    "for_each" => {
+                        i.for_each(|x| {
+                            assert!(items.len() < fuse, "fuse");
+                            items.push(x)
+                        });
+                        Raw::Items(std::mem::take(items), [false, false])
+                    }
+                    "vec" => Raw::Items(i.collect::<Vec<T>>(), [false, false]),
+                    "skip" => {
+                        let mut s = i.skip(k);
+                        let (_, after) = drain(&mut s, cap, items);
+                        Raw::Items(std::mem::take(items), after)
+                    }
+                    "step_by" => {
+                        let mut s = i.step_by(k);
+                        let (_, after) = drain(&mut s, cap, items);
+                        Raw::Items(std::mem::take(items), after)
+                    }
+                    _ => unreachable!(),
+                })
+            })
+        } else {
+            let i = it.as_mut().expect("iterator already consumed");
+            measured(|| {
+                catch(|| {
+                    let mut c = 0usize;
+                    match name {
+                        "next" => Raw::Opt(i.next()),
+                        "nth" => Raw::Opt(i.nth(k)),
+                        "find" => Raw::Opt(i.find(|_| {
+                            c += 1;
+                            c == k
+                        })),
+                        "position" => Raw::OptN(i.position(|_| {
+                            c += 1;
+                            c == k
+                        })),
+                        "any" => Raw::B(i.any(|_| {
+                            c += 1;
+                            c == k
+                        })),
+                        "all" => Raw::B(i.all(|_| {
+                            c += 1;
+                            c != k
+                        })),
+                        "hint" => {
+                            let (lo, hi) = i.size_hint();
+                            Raw::Hint(lo, hi)
+                        }
+                        "len" => Raw::N(len_of(&*i).expect("len of an iterator that is not ExactSize")),
+                        "drain" => {
+                            let (_, after) = drain(i, cap, items);
+                            Raw::Items(std::mem::take(items), after)
+                        }
+                        o => panic!("unknown iterator method {}", o),
+                    }
+                })
+            })
+        };
+        // `collect` allocates its Vec; a by-value method drops the iterator -- and with it the boxes
+        // of the term builder -- inside the call: those frees are the harness's own
+        if name != "vec" {
+            for x in 0..(if terminal { 2 } else { 3 }) {
+                h[x] += h1[x];
+            }
+        }
+        let small = |n: usize| json!(n.min(SMALL));
+        let v = match r {
+            None => json!({"k": "panic"}),
+            Some(Raw::Opt(Some(x))) => json!({"k": "some", "v": enc(x)}),
+            Some(Raw::OptN(Some(n))) => json!({"k": "some", "v": small(n)}),
+            Some(Raw::Opt(None)) | Some(Raw::OptN(None)) => json!({"k": "none"}),
+            Some(Raw::B(b)) => json!({"k": "val", "v": b}),
+            Some(Raw::N(n)) => json!({"k": "val", "v": small(n)}),
+            Some(Raw::Hint(lo, hi)) => json!({"k": "hint", "lo": small(lo), "hi": hi.map_or(json!(-1), small)}),
+            Some(Raw::Items(xs, after)) => json!({"k": "items", "v": Value::Array(xs.into_iter().map(enc).collect()), "after": [after[0], after[1]]}),
+        };
+        let stop = v["k"] == "panic";
+        res.push(v);
+        steps.push(snap());
+        if stop {
+            break;
+        }
+    }
+    (res, steps, h)
+}
+fn no_len<I>(_: &I) -> Option<usize> {
+    None
+}
+fn drive_prog<F: Sort, S: Signal<Frame = F>>(s: S, consumer: &str, n: usize, ops: &[Value], cap: usize, snap: &dyn Fn() -> Value) -> (Vec<Value>, Vec<Value>, [i64; 3]) {
+    match consumer {
+        "take" => run_prog(s.take(n), ops, cap, |t: &signal::Take<S>| Some(ExactSizeIterator::len(t)), snap, F::f_to_json),
+        "ue" => run_prog(s.until_exhausted(), ops, cap, no_len, snap, F::f_to_json),
+        "il" => run_prog(s.into_interleaved_samples().into_iter(), ops, cap, no_len, snap, F::s_to_json),
+        c => panic!("unknown consumer {}", c),
+    }
+}
+
 fn resume_one<S: Sort>(out: &mut Out, a: &Value, b: &mut Box<dyn Any>, pulls: &[Rc<Cell<u32>>], iters: &[Rc<Cell<u32>>]) {
     let d = b.downcast_mut::<Dyn<'static, S>>().expect("resume: source sort");
     let eb = catch(|| d.is_exhausted());
@@ -900,6 +1051,35 @@ where
                         }
                     }
                     out.ev("collect", a.clone(), c.r, o, c.h);
+                    if root.is_none() {
+                        i += 1;
+                        break;
+                    }
+                }
+                "drive" => {
+                    // a program of Iterator methods on the consumer's iterator (see run_prog)
+                    let consumer = a["consumer"].as_str().expect("consumer");
+                    let n = a["n"].as_u64().unwrap_or(0) as usize;
+                    let cap = a["cap"].as_u64().unwrap_or(64) as usize;
+                    let byref = a["byref"].as_bool().unwrap_or(false);
+                    let prog: &[Value] = a["ops"].as_array().expect("ops");
+                    insp.borrow_mut().clear();
+                    let snap = || counts(&pulls);
+                    let (res, steps, h) = if byref {
+                        match root.as_mut().expect("drive on a consumed term") {
+                            Root::Dy(d) => drive_prog::<F, _>(Signal::by_ref(d), consumer, n, prog, cap, &snap),
+                            Root::St(_) => panic!("iterator programs are not run on static stacks"),
+                        }
+                    } else {
+                        match root.take().expect("drive on a consumed term") {
+                            Root::Dy(d) => drive_prog::<F, _>(d, consumer, n, prog, cap, &snap),
+                            Root::St(_) => panic!("iterator programs are not run on static stacks"),
+                        }
+                    };
+                    let ok = res.len() == prog.len() && res.last().map_or(true, |v| v["k"] != "panic");
+                    let seen = insp.borrow().len();
+                    out.ev("drive", a.clone(), r_items(Value::Array(res)),
+                           json!({"ok": ok, "steps": steps, "pulls": counts(&pulls), "it": counts(&iters), "insp_calls": seen}), h);
                     if root.is_none() {
                         i += 1;
                         break;
@@ -1310,6 +1490,7 @@ fn gen(seed: u64, size: &str, path: &str) {
     gen_extremes(&mut g, size == "thorough", &mut execs);
     gen_clones(size == "thorough", &mut execs);
     gen_static(seed, size == "thorough", &mut execs);
+    gen_iters(seed, size == "thorough", &mut execs);
     write_stimuli(path, &execs);
 }
 
@@ -1625,6 +1806,155 @@ fn gen_clones(thorough: bool, execs: &mut Vec<Vec<Value>>) {
                 execs.push(ex);
             }
         }
+    }
+}
+
+/// The provided `Iterator` methods of the three consumers (event `drive`): every method at EVERY
+/// position of a short stream -- `nth(k)` / `skip(k)` / `step_by(k)` / the counting predicates for every
+/// k up to past the end, each terminal method (`count`, `last`, `fold`, `for_each`, `collect`) after
+/// 0, 1, L-1, L, L+1 items, `size_hint` / `len` in between -- by value and over `&mut root` (the root
+/// carries on afterwards), then random programs over random terms.  Own random stream.
+fn gen_iters(seed: u64, thorough: bool, execs: &mut Vec<Vec<Value>>) {
+    let x0 = json!({"x": 0});
+    let op = |o: &str, k: usize| json!({"op": o, "k": k});
+    let sorts: &[(&str, usize)] = if thorough { &[("i16", 2), ("f64", 1), ("u8", 3), ("i32", 2)] } else { &[("i16", 2), ("f64", 1)] };
+    let mut flip = 0usize;
+    for &(fmt, ch) in sorts {
+        let sf = signed_of(fmt);
+        let frames = 4usize;
+        let src = |sign: f64, f: &str, len: usize| -> Value {
+            let xs: Vec<Value> = (0..len)
+                .map(|i| Value::Array((0..ch).map(|c| enc(f, sign * (0.0625 + 0.125 * i as f64 + 0.03125 * c as f64))).collect()))
+                .collect();
+            json!({"fmt": f, "kind": "frames", "xs": xs})
+        };
+        let srcs = json!([src(1.0, fmt, frames), src(-1.0, sf, frames + 2)]);
+        let s1 = json!({"k": "src", "j": 1});
+        let t_add = json!({"k": "add", "a": json!({"k": "delay", "n": 1, "a": json!({"k": "inspect", "a": s1.clone()})}), "b": json!({"k": "src", "j": 2})});
+        let reset = |term: &Value| json!({"ev": "reset", "comp": "signal", "cfg": {"ch": ch, "fmt": fmt, "st": 0, "srcs": srcs.clone(), "term": term.clone()}});
+        for (term, flen) in [(&s1, frames), (&t_add, frames + 1)] {
+            for c in ["take", "ue", "il"] {
+                // take(n) runs past the end of the finite source (equilibrium frames follow)
+                let n = flen + 1;
+                let len = match c {
+                    "take" => n,
+                    "ue" => flen,
+                    _ => flen * ch,
+                };
+                let mut progs: Vec<Vec<Value>> = Vec::new();
+                let sized = |v: &mut Vec<Value>| {
+                    v.push(op("hint", 0));
+                    if c == "take" {
+                        v.push(op("len", 0));
+                    }
+                };
+                for k in 0..=(len + 1) {
+                    let mut v = vec![op("nth", k)];
+                    sized(&mut v);
+                    v.push(op("drain", 0));
+                    v.push(op("count", 0));
+                    progs.push(v);
+                    let mut v = vec![op("next", 0), op("nth", k)];
+                    sized(&mut v);
+                    v.push(op("nth", k));
+                    sized(&mut v);
+                    v.push(op(["fold", "count", "last", "for_each", "vec"][k % 5], 0));
+                    progs.push(v);
+                    progs.push(vec![op("skip", k)]);
+                    progs.push(vec![op("next", 0), op("skip", k)]);
+                    if k >= 1 {
+                        progs.push(vec![op("step_by", k)]);
+                        progs.push(vec![op("nth", 0), op("step_by", k)]);
+                        for p in ["find", "position", "any", "all"] {
+                            let mut v = vec![op(p, k)];
+                            sized(&mut v);
+                            v.push(op(p, 1));
+                            v.push(op("drain", 0));
+                            progs.push(v);
+                        }
+                    }
+                }
+                for j in [0, 1, len - 1, len, len + 1] {
+                    for t in ["count", "last", "fold", "for_each", "vec", "drain"] {
+                        let mut v: Vec<Value> = (0..j).map(|_| op("next", 0)).collect();
+                        sized(&mut v);
+                        v.push(op(t, 0));
+                        if t == "drain" {
+                            sized(&mut v);
+                            v.push(op("nth", 0));
+                            v.push(op("last", 0));
+                        }
+                        progs.push(v);
+                    }
+                }
+                for prog in progs {
+                    flip += 1;
+                    let byref = flip % 3 == 0;
+                    let n0 = if flip % 5 == 0 { 1 } else { 0 };
+                    let mut ex = vec![reset(term)];
+                    for _ in 0..n0 {
+                        ex.push(json!({"ev": "next", "a": x0}));
+                    }
+                    ex.push(json!({"ev": "drive", "a": {"consumer": c, "n": n, "cap": 64, "byref": byref, "ops": prog}}));
+                    if byref {
+                        ex.push(json!({"ev": "next", "a": x0}));
+                        ex.push(json!({"ev": "is_exhausted", "a": x0}));
+                        ex.push(json!({"ev": "next", "a": x0}));
+                    }
+                    execs.push(ex);
+                }
+            }
+        }
+    }
+    // random programs over random terms
+    let mut g = Gen { rng: Rng::new(seed ^ 0x17e2_a70c_5eed), ch: 1, srcs: Vec::new(), lens: Vec::new(), max_len: 14, force: Default::default(), force_leaf: None, sharp: false };
+    for e in 0..(if thorough { 600 } else { 60 }) {
+        let fmt = ["i16", "u8", "f64", "i32"][e % 4];
+        g.ch = 1 + g.rng.below(4) as usize;
+        g.srcs.clear();
+        g.lens.clear();
+        let depth = g.rng.below(4) as u32;
+        let term = g.term(fmt, depth, 0.9);
+        if g.srcs.iter().any(|s| s["kind"] == "opaque") {
+            continue;
+        }
+        let len = est_len(&term, &g.lens);
+        let mut ex = vec![json!({"ev": "reset", "comp": "signal",
+                                 "cfg": {"ch": g.ch, "fmt": fmt, "st": 0, "srcs": g.srcs.clone(), "term": term.clone()}})];
+        for _ in 0..g.rng.below(3) {
+            ex.push(json!({"ev": "next", "a": x0}));
+        }
+        let c = if len.is_some() { *g.rng.pick(&["take", "ue", "il"]) } else { "take" };
+        let n = g.rng.below(len.unwrap_or(6) as u64 + 4) as usize;
+        let total = match c {
+            "take" => n,
+            "ue" => len.unwrap_or(0),
+            _ => len.unwrap_or(0) * g.ch,
+        } as u64;
+        let mut prog = Vec::new();
+        for _ in 0..g.rng.below(5) {
+            let k = g.rng.below(total / 2 + 2) as usize;
+            let o = *g.rng.pick(&["next", "next", "nth", "nth", "nth", "find", "position", "any", "all", "hint", "drain"]);
+            let o = if o == "hint" && c == "take" && g.rng.chance(1, 2) { "len" } else { o };
+            prog.push(op(o, if matches!(o, "find" | "position" | "any" | "all") { k + 1 } else { k }));
+        }
+        let t = *g.rng.pick(&["count", "last", "fold", "for_each", "vec", "skip", "skip", "step_by", "step_by", "drain"]);
+        prog.push(op(t, if t == "step_by" { 1 + g.rng.below(total + 1) as usize } else { g.rng.below(total + 2) as usize }));
+        let byref = g.rng.chance(1, 2);
+        ex.push(json!({"ev": "drive", "a": {"consumer": c, "n": n, "cap": 400, "byref": byref, "ops": prog}}));
+        if byref {
+            for _ in 0..(1 + g.rng.below(3)) {
+                ex.push(json!({"ev": "next", "a": x0}));
+            }
+            ex.push(json!({"ev": "is_exhausted", "a": x0}));
+        } else {
+            let mut ids = Vec::new();
+            collect_byrefs(&term, &mut ids);
+            for &j in &ids {
+                ex.push(json!({"ev": "resume", "a": {"src": j + 1}}));
+            }
+        }
+        execs.push(ex);
     }
 }
 
